@@ -360,6 +360,16 @@ def constructCall (seed : Option Int) (gen : Bool := false) : Option (List Cmd Ã
   | .generated => none
   | .raises => none
 
+/-- `PrimaiteRayMARLEnv.reset(seed=â€¦)` (session/ray_envs.py): the class never looks at its `seed` argument and never calls
+`set_random_seed` (Gen: `marlSeedCalls = []`) - whatever the argument, the call is the UNSEEDED reset -/
+def marlResetCall (_seed : Option Int) : Option (List Cmd Ã— Val) := some (resetProgNoSeed, 0)
+
+/-- `PrimaiteRayMARLEnv(cfg)`: `game.seed` of the scenario is not read either - the unseeded construction -/
+def marlConstructCall (_seed : Option Int) : Option (List Cmd Ã— Val) := some (constructProgNoSeed, 0)
+
+/-- `PrimaiteRayEnv` wraps a `PrimaiteGymEnv` and hands `reset(seed=seed)` / `step(action)` on to it (Gen: `rayEnvâ€¦`) -/
+def rayEnvResetCall (seed : Option Int) (gen : Bool := false) : Option (List Cmd Ã— Val) := resetCall seed gen
+
 /-- NOT the code: `reset` with the guard written as a truthiness test (`if seed:`): `reset(seed=0)` is an unseeded reset -/
 def resetSeedGuardTruthy (seed : Option Int) : Bool :=
   match seed with
